@@ -27,7 +27,7 @@ fn sweep_forward(vt: &mut Vt, cols: usize) -> Vec<usize> {
 }
 
 fn sweep_backward(vt: &mut Vt, cols: usize) -> Vec<usize> {
-    vt.feed_str("\x1b[9999C");
+    vt.feed_str("\x1b[65535C\x1b[65535C");
     let mut out = vec![];
     for _ in 0..cols + 2 {
         vt.feed_str("\x1b[Z");
@@ -210,7 +210,7 @@ impl Check for C18 {
                     if got != want {
                         return Verdict::Violation { rule: "C18/cht-count".into(), detail: format!("width {}: CR CHT {} lands on {}, expected {}", cols, n, got, want) };
                     }
-                    f3.feed_str(&format!("\x1b[9999C\x1b[{}Z", n));
+                    f3.feed_str(&format!("\x1b[65535C\x1b[65535C\x1b[{}Z", n));
                     let got = f3.cursor().col;
                     let want = eb.get(n - 1).copied().unwrap_or(0);
                     if got != want {
